@@ -9,6 +9,7 @@ import (
 	"encoding/xml"
 	"fmt"
 	"io"
+	"math/big"
 	"net"
 	"os"
 	"strconv"
@@ -58,6 +59,7 @@ type peer struct {
 	packets []pkt  // data stanzas tapped from the session
 	replies map[string]string
 	closes  int
+	onClose func() // called when the session's <close/> arrives, before it is answered
 	nsync   int
 	reqIDs  []string // ids of the open / data / close requests the session sent
 }
@@ -210,6 +212,7 @@ func (p *peer) handle(e elem) {
 			}
 		}
 		p.replies["msgerr"] = r
+		p.replies["msgerr:"+e.ID] = r
 	case name == "iq" && c.XMLName.Local == "open":
 		p.reqIDs = append(p.reqIDs, e.ID)
 		if p.openSilent {
@@ -231,6 +234,9 @@ func (p *peer) handle(e elem) {
 	case name == "iq" && c.XMLName.Local == "close":
 		p.reqIDs = append(p.reqIDs, e.ID)
 		p.closes++
+		if p.onClose != nil {
+			p.onClose()
+		}
 		switch p.closeMode {
 		case "err":
 			p.feed(fmt.Sprintf(`<iq xmlns="jabber:client" type="error" id="%s" from="%s"><error type="cancel"><item-not-found xmlns="urn:ietf:params:xml:ns:xmpp-stanzas"/></error></iq>`, e.ID, peerJID))
@@ -249,6 +255,28 @@ func (p *peer) sync() bool {
 	return p.pump(func() bool { _, ok := p.replies[id]; return ok })
 }
 
+func xmlAttr(s string) string {
+	var b bytes.Buffer
+	_ = xml.EscapeText(&b, []byte(s))
+	return b.String()
+}
+
+func isCanonical(s string) bool { _, ok := canonicalSeq(s); return ok }
+
+// wireNumber: the natural number a seq attribute denotes (decimal digits only).
+func wireNumber(s string) (*big.Int, bool) {
+	if s == "" {
+		return nil, false
+	}
+	for _, c := range s {
+		if c < '0' || c > '9' {
+			return nil, false
+		}
+	}
+	n, ok := new(big.Int).SetString(s, 10)
+	return n, ok
+}
+
 var replyCode = map[string]string{"ack": "ack", "item-not-found": "inf", "unexpected-request": "unx", "bad-request": "bad", "resource-constraint": "res"}
 
 // ---------------------------------------------------------------- receiver
@@ -261,13 +289,41 @@ type rop struct {
 	payload string
 	msg     bool
 	n       int
-	cls     string // nature of the packet (generator): good corrupt truncated oversize wrongseq unknownsid newline
+	cls     string // nature of the packet (generator): good corrupt truncated oversize wrongseq unknownsid newline seqattr
+	attr    string // the seq attribute as written on the wire (if raw), when it is not the plain decimal of seq
+	raw     bool
+	tail    []rop // kind 'C': data packets of the peer that arrive while Close waits for the answer
+}
+
+// seqText: the seq attribute on the wire.
+func (o rop) seqText() string {
+	if o.raw {
+		return o.attr
+	}
+	return strconv.Itoa(o.seq)
+}
+
+// canonical: the attribute is the plain decimal numeral of a natural number.
+func canonicalSeq(s string) (int, bool) {
+	if s == "" || len(s) > 18 || (len(s) > 1 && s[0] == '0') {
+		return 0, false
+	}
+	for _, c := range s {
+		if c < '0' || c > '9' {
+			return 0, false
+		}
+	}
+	n, _ := strconv.Atoi(s)
+	return n, true
 }
 
 func (o rop) tok() string {
 	switch o.kind {
 	case 'd':
-		return fmt.Sprintf("d:%s:%d:%s", common.B(o.known), o.seq, common.HexS(o.payload))
+		if _, ok := canonicalSeq(o.seqText()); !ok {
+			return fmt.Sprintf("d:%s:x%s:%s", common.B(o.known), common.HexS(o.seqText()), common.HexS(o.payload))
+		}
+		return fmt.Sprintf("d:%s:%s:%s", common.B(o.known), o.seqText(), common.HexS(o.payload))
 	case 'r':
 		return fmt.Sprintf("r:%d", o.n)
 	case 'b':
@@ -312,27 +368,84 @@ func runRecv(r *common.Run, maxbuf0 int, carrier string, ops []rop, class string
 	// independent oracle state
 	var accepted, got []byte
 	expSeq, unread, closed, nd := 0, 0, false, 0
+	var send func(o rop) string
+	var judge func(o rop, id, during string)
+	_, _ = send, judge
 	lastBad := "none"
 	var packOps []string // the local writer's view of the history (other direction)
 	wrote := false
+	send = func(o rop) string {
+		nd++
+		id := fmt.Sprintf("d%d", nd)
+		sid := "S"
+		if !o.known {
+			sid = "nosuch"
+		}
+		delete(p.replies, "msgerr")
+		if o.msg {
+			p.feed(fmt.Sprintf(`<message xmlns="jabber:client" id="%s" from="%s" to="me@example.net/h"><data xmlns="http://jabber.org/protocol/ibb" seq="%s" sid="%s">%s</data></message>`, id, peerJID, xmlAttr(o.seqText()), sid, o.payload))
+		} else {
+			p.feed(fmt.Sprintf(`<iq xmlns="jabber:client" type="set" id="%s" from="%s" to="me@example.net/h"><data xmlns="http://jabber.org/protocol/ibb" seq="%s" sid="%s">%s</data></iq>`, id, peerJID, xmlAttr(o.seqText()), sid, o.payload))
+		}
+		return id
+	}
+	// judge: the reply to packet o (sent as id) against the independent oracle.  during: "" or the
+	// phase of a local Close in which the packet arrived.
+	judge = func(o rop, id, during string) {
+		rep := p.replies[id]
+		if o.msg {
+			rep = "ack"
+			if e, ok := p.replies["msgerr:"+id]; ok {
+				rep = e
+			} else if e, ok := p.replies["msgerr"]; ok && during == "" {
+				rep = e
+			}
+		}
+		code, ok := replyCode[rep]
+		if !ok {
+			code = "other:" + rep
+		}
+		obs = append(obs, code)
+		dec, derr := base64.StdEncoding.DecodeString(o.payload)
+		valid := o.known && !closed && derr == nil && (maxbuf == 0 || unread+len(dec) <= maxbuf)
+		// the number the packet carries: the seq attribute read as a decimal numeral of ANY size
+		// (not reduced modulo anything); an attribute that is no numeral carries no number
+		wireNum, isNum := wireNumber(o.seqText())
+		inSeq := isNum && wireNum.Cmp(big.NewInt(int64(expSeq))) == 0
+		switch {
+		case code == "ack" && !inSeq:
+			key := "out-of-sequence-packet-accepted"
+			if !isNum {
+				key = "packet-without-a-number-accepted"
+			} else if wireNum.BitLen() > 16 {
+				key = "packet-number-above-65535-accepted"
+			}
+			r.Fail("refuse", key, line(), fmt.Sprintf("packet with seq attribute %q acknowledged, expected seq was %d (packets are numbered 0..65535; a number outside that range or a different number is out of sequence)", o.seqText(), expSeq))
+		case code == "ack" && derr == nil && maxbuf > 0 && unread+len(dec) > maxbuf:
+			r.Fail("refuse", "oversize-packet-accepted", line(), fmt.Sprintf("the receive buffer is limited to %d bytes (as requested, raised only to the block size), %d are buffered, a packet of %d bytes was acknowledged instead of refused with resource-constraint", maxbuf, unread, len(dec)))
+		case code == "ack" && derr != nil:
+			r.Fail("refuse", "undecodable-packet-accepted", line(), fmt.Sprintf("payload %q acknowledged", o.payload))
+		case code != "ack" && valid && inSeq && isCanonical(o.seqText()) && during != "":
+			r.Fail("deliver", "packet-in-flight-at-local-close-refused", line(), fmt.Sprintf("local Close had sent its <close/> and was waiting for the answer; packet seq %d (%q) of the peer, valid and in sequence, sent before the peer answered (what it had written and flushes when it handles the close), was answered %s: bytes the peer wrote are lost", o.seq, o.payload, code))
+		case code != "ack" && valid && inSeq && isCanonical(o.seqText()):
+			r.Fail("refuse", "valid-packet-refused-after:"+lastBad, line(), fmt.Sprintf("packet seq %d (%q) is valid and in sequence but was answered %s: an earlier refused packet disturbed the stream", o.seq, o.payload, code))
+		}
+		if code != "ack" {
+			lastBad = o.cls
+		}
+		if code == "ack" {
+			accepted = append(accepted, dec...)
+			unread += len(dec)
+			expSeq = (expSeq + 1) % 65536
+		}
+	}
 	for _, o := range ops {
 		if len(obs) > 0 && strings.HasPrefix(obs[len(obs)-1], "PROBLEM") {
 			break
 		}
 		switch o.kind {
 		case 'd':
-			nd++
-			id := fmt.Sprintf("d%d", nd)
-			sid := "S"
-			if !o.known {
-				sid = "nosuch"
-			}
-			delete(p.replies, "msgerr")
-			if o.msg {
-				p.feed(fmt.Sprintf(`<message xmlns="jabber:client" id="%s" from="%s" to="me@example.net/h"><data xmlns="http://jabber.org/protocol/ibb" seq="%d" sid="%s">%s</data></message>`, id, peerJID, o.seq, sid, o.payload))
-			} else {
-				p.feed(fmt.Sprintf(`<iq xmlns="jabber:client" type="set" id="%s" from="%s" to="me@example.net/h"><data xmlns="http://jabber.org/protocol/ibb" seq="%d" sid="%s">%s</data></iq>`, id, peerJID, o.seq, sid, o.payload))
-			}
+			id := send(o)
 			toks = append(toks, o.tok())
 			if !p.sync() {
 				for _, e := range p.ctl.Drain(nil) {
@@ -345,38 +458,7 @@ func runRecv(r *common.Run, maxbuf0 int, carrier string, ops []rop, class string
 				fail("serve loop does not answer after packet " + id)
 				continue
 			}
-			rep := p.replies[id]
-			if o.msg {
-				rep = "ack"
-				if e, ok := p.replies["msgerr"]; ok {
-					rep = e
-				}
-			}
-			code, ok := replyCode[rep]
-			if !ok {
-				code = "other:" + rep
-			}
-			obs = append(obs, code)
-			dec, derr := base64.StdEncoding.DecodeString(o.payload)
-			valid := o.known && !closed && derr == nil && (maxbuf == 0 || unread+len(dec) <= maxbuf)
-			switch {
-			case code == "ack" && o.seq != expSeq:
-				r.Fail("refuse", "out-of-sequence-packet-accepted", line(), fmt.Sprintf("packet seq %d acknowledged, expected seq was %d", o.seq, expSeq))
-			case code == "ack" && derr == nil && maxbuf > 0 && unread+len(dec) > maxbuf:
-				r.Fail("refuse", "oversize-packet-accepted", line(), fmt.Sprintf("the receive buffer is limited to %d bytes (as requested, raised only to the block size), %d are buffered, a packet of %d bytes was acknowledged instead of refused with resource-constraint", maxbuf, unread, len(dec)))
-			case code == "ack" && derr != nil:
-				r.Fail("refuse", "undecodable-packet-accepted", line(), fmt.Sprintf("payload %q acknowledged", o.payload))
-			case code != "ack" && valid && o.seq == expSeq:
-				r.Fail("refuse", "valid-packet-refused-after:"+lastBad, line(), fmt.Sprintf("packet seq %d (%q) is valid and in sequence but was answered %s: an earlier refused packet disturbed the stream", o.seq, o.payload, code))
-			}
-			if code != "ack" {
-				lastBad = o.cls
-			}
-			if code == "ack" {
-				accepted = append(accepted, dec...)
-				unread += len(dec)
-				expSeq = (expSeq + 1) % 65536
-			}
+			judge(o, id, "")
 		case 'b':
 			// the limit is the REQUESTED one, raised only to the negotiated block size (4 here)
 			conn.SetReadBuffer(o.n)
@@ -430,18 +512,43 @@ func runRecv(r *common.Run, maxbuf0 int, carrier string, ops []rop, class string
 					continue
 				}
 			} else {
+				// packets of the peer that reach us while Close waits for the answer to its <close/>
+				// (in flight, or flushed by the peer when it handles the request)
+				var ids []string
+				if len(o.tail) > 0 {
+					toks[len(toks)-1] = "h"
+					obs = append(obs, "h")
+					p.onClose = func() {
+						for _, t := range o.tail {
+							ids = append(ids, send(t))
+						}
+					}
+				}
 				done := make(chan error, 1)
 				go func() { done <- conn.Close() }()
-				if !p.pump(func() bool {
+				ok := p.pump(func() bool {
 					select {
 					case <-done:
 						return true
 					default:
 						return false
 					}
-				}) {
+				})
+				p.onClose = nil
+				if !ok {
 					fail("local Close does not return")
 					continue
+				}
+				if len(o.tail) > 0 {
+					if !p.sync() || len(ids) != len(o.tail) {
+						fail("serve loop does not answer after local Close with packets in flight")
+						continue
+					}
+					for i, t := range o.tail {
+						toks = append(toks, t.tok())
+						judge(t, ids[i], "handshake")
+					}
+					toks = append(toks, "c")
 				}
 			}
 			closed = true
